@@ -44,7 +44,7 @@ LENS = (0, 148, 296, 444, 592, 740)
 
 _env = {}
 LIMIT = 20            # recorded violations (<= 3 per key) after which a work item stops: nothing is gained by going on
-MAX_SEEN = 5000       # ... or this many violation instances of whatever key
+MAX_SEEN = 100000       # ... or this many violation instances of whatever key
 MAX_BRIEF = 3         # batched PDUs written out in a message
 
 
